@@ -461,4 +461,94 @@ mod proofs {
         kani::assume(q < 16);
         assert!(eager.quantile_function(q) == lazy.quantile_function(q));
     }
+
+    // ---------- round-2 probes ----------
+    use constriction::stream::chain::ChainCoder;
+    use constriction::{Pos, Seek};
+
+    #[kani::proof]
+    #[kani::unwind(6)]
+    fn p2_hashmap_encoder_model() {
+        let syms: [u8; 2] = kani::any();
+        let probs: [u8; 2] = kani::any();
+        if let Ok(m) = NonContiguousCategoricalEncoderModel::<u8, u8, 4>::from_symbols_and_nonzero_fixed_point_probabilities(syms.iter().cloned(), probs.iter(), false) {
+            assert!(syms[0] != syms[1]);
+            assert!(probs[0] != 0 && probs[1] != 0 && probs[0] as u16 + probs[1] as u16 == 16);
+            let r = m.left_cumulative_and_probability(syms[1]);
+            assert!(r.is_some());
+            let (c, p) = r.unwrap();
+            assert!(c == probs[0] && p.get() == probs[1]);
+            let other: u8 = kani::any();
+            kani::assume(other != syms[0] && other != syms[1]);
+            assert!(m.left_cumulative_and_probability(other).is_none());
+        }
+    }
+
+    #[kani::proof]
+    #[kani::unwind(8)]
+    fn p2_chain_rt_u8_u16_p4() {
+        let data: [u8; 3] = kani::any();
+        let m = Cuts::<u8, 4>{c1: kani::any(), c2: kani::any()};
+        kani::assume(m.valid());
+        let mut coder = match ChainCoder::<u8, u16, Vec<u8>, Vec<u8>, 4>::from_binary(data.to_vec()) { Ok(c) => c, Err(_) => { return; } };
+        let sym = match coder.decode_symbol(m) { Ok(s) => s, Err(_) => { return; } };
+        let (prefix, suffix) = match coder.into_remainders() { Ok(x) => x, Err(_) => unreachable!() };
+        let mut coder2 = match ChainCoder::<u8, u16, Vec<u8>, Vec<u8>, 4>::from_remainders(suffix) { Ok(c) => c, Err(_) => { assert!(false); return; } };
+        assert!(coder2.encode_symbol(sym, m).is_ok());
+        let (p2, s2) = match coder2.into_binary() { Ok(x) => x, Err(_) => { assert!(false); return; } };
+        // prefix ++ p2 ++ s2 == data
+        let mut all = prefix; all.extend(p2); all.extend(s2);
+        assert!(all.len() == 3);
+        assert!(all[0] == data[0] && all[1] == data[1] && all[2] == data[2]);
+    }
+
+    #[kani::proof]
+    #[kani::unwind(8)]
+    fn p2_range_guard_u8_u16() {
+        let lower: u16 = kani::any(); let range: u16 = kani::any();
+        let st = match RangeCoderState::<u8,u16>::new(lower, range) { Ok(s) => s, Err(_) => return };
+        let wraps = lower.wrapping_add(range) <= lower;
+        let n: usize = kani::any(); kani::assume(n >= 1 && n <= 2);
+        let w: u8 = kani::any();
+        let sit = if wraps { EncoderSituation::Inverted(core::num::NonZeroUsize::new(n).unwrap(), w) } else { EncoderSituation::Normal };
+        let b0: u8 = kani::any(); let blen: usize = kani::any(); kani::assume(blen <= 1);
+        let mut bulk = Vec::new(); if blen == 1 { bulk.push(b0); }
+        let mut enc = RangeEncoder::<u8,u16>::from_raw_parts(bulk, st, sit);
+        let expect = match enc.clone().into_compressed() { Ok(v) => v, Err(_) => unreachable!() };
+        let nw = enc.num_words();
+        assert!(nw == expect.len());
+        {
+            let g = enc.get_compressed();
+            assert!(g.len() == expect.len());
+            let mut i = 0; while i < expect.len() { assert!(g[i] == expect[i]); i += 1; }
+        }
+        let (b2, st2, sit2) = enc.into_raw_parts();
+        assert!(b2.len() == blen);
+        if blen == 1 { assert!(b2[0] == b0); }
+        assert!(st2 == st && sit2 == sit);
+    }
+
+    macro_rules! p2_ans_binary {
+        ($name:ident, $W:ty, $S:ty) => {
+            #[kani::proof]
+            #[kani::unwind(8)]
+            fn $name() {
+                let data: [$W; 3] = kani::any();
+                let len: usize = kani::any(); kani::assume(len <= 3);
+                let v = data[..len].to_vec();
+                let mut c = match AnsCoder::<$W,$S,Vec<$W>>::from_binary(v) { Ok(c) => c, Err(_) => unreachable!() };
+                assert!(c.num_valid_bits() == len * <$W>::BITS as usize);
+                {
+                    let g = match c.get_binary() { Ok(g) => g, Err(_) => { assert!(false); return; } };
+                    assert!(g.len() == len);
+                    let mut i = 0; while i < len { assert!(g[i] == data[i]); i += 1; }
+                }
+                let out = match c.into_binary() { Ok(o) => o, Err(_) => { assert!(false); return; } };
+                assert!(out.len() == len);
+                let mut i = 0; while i < len { assert!(out[i] == data[i]); i += 1; }
+            }
+        };
+    }
+    p2_ans_binary!(p2_ans_binary_u8_u16, u8, u16);
+    p2_ans_binary!(p2_ans_binary_u32_u64, u32, u64);
 }
